@@ -433,8 +433,10 @@ int read_fasta( struct in_buffer* b,struct msa** m)
 
                 }else{
                         for(i = 0;i < line_len;i++){
-                                msa->letter_freq[(int)line[i]]++;
-                                if(isalpha((int)line[i])){
+                                if((unsigned char)line[i] < 128){
+                                        msa->letter_freq[(int)line[i]]++;
+                                }
+                                if(isalpha((unsigned char)line[i])){
                                         if(!seq_ptr){
                                                 ERROR_MSG("Encountered a sequence before encountering it's name");
                                         }
@@ -443,7 +445,10 @@ int read_fasta( struct in_buffer* b,struct msa** m)
                                         if(seq_ptr->alloc_len == seq_ptr->len){
                                                 resize_msa_seq(seq_ptr);
                                         }
-                                }else if(ispunct((int)line[i])){
+                                }else if(ispunct((unsigned char)line[i])){
+                                        if(!seq_ptr){
+                                                ERROR_MSG("Encountered a sequence before encountering it's name");
+                                        }
                                         seq_ptr->gaps[seq_ptr->len]++;
                                 }
                         }
@@ -516,14 +521,16 @@ int read_clu(struct in_buffer* b , struct msa** m)
                                 }
                                 seq_ptr->name[j] = 0;
                                 for(i = j;i < line_len;i++){
-                                        msa->letter_freq[(int)p[i]]++;
-                                        if(isalpha((int)p[i])){
+                                        if((unsigned char)p[i] < 128){
+                                                msa->letter_freq[(int)p[i]]++;
+                                        }
+                                        if(isalpha((unsigned char)p[i])){
                                                 seq_ptr->seq[seq_ptr->len] = p[i];
                                                 seq_ptr->len++;
                                                 if(seq_ptr->alloc_len == seq_ptr->len){
                                                         resize_msa_seq(seq_ptr);
                                                 }
-                                        }else if(ispunct((int)p[i])){
+                                        }else if(ispunct((unsigned char)p[i])){
                                                 seq_ptr->gaps[seq_ptr->len]++;
                                         }
                                 }
@@ -613,15 +620,17 @@ int read_msf(struct in_buffer* b,struct msa** m)
                                 j = strnlen(seq_ptr->name, MSA_NAME_LEN);
                                 p += j;
                                 for(i = 0;i < line_len-j;i++){
-                                        msa->letter_freq[(int)p[i]]++;
-                                        if(isalpha((int)p[i])){
+                                        if((unsigned char)p[i] < 128){
+                                                msa->letter_freq[(int)p[i]]++;
+                                        }
+                                        if(isalpha((unsigned char)p[i])){
 
                                                 seq_ptr->seq[seq_ptr->len] = p[i];
                                                 seq_ptr->len++;
                                                 if(seq_ptr->alloc_len == seq_ptr->len){
                                                         resize_msa_seq(seq_ptr);
                                                 }
-                                        }else if(ispunct((int)p[i])){
+                                        }else if(ispunct((unsigned char)p[i])){
                                                 seq_ptr->gaps[seq_ptr->len]++;
                                         }
                                 }
